@@ -6,8 +6,10 @@
 -/
 import NiftyVerif.Lemmas.Descent
 import NiftyVerif.Lemmas.LineSearch
+import NiftyVerif.Lemmas.LineSearchInterp
 import NiftyVerif.Lemmas.Lbfgs
 import NiftyVerif.Lemmas.LbfgsRun
+import NiftyVerif.Lemmas.LbfgsRVec
 
 namespace NiftyVerif.C16
 open NiftyVerif
@@ -117,10 +119,29 @@ theorem ls_returns_evaluated_point (c : Consts K) (p : Params K) (t : List (Ev K
     exact (runLS_ret c p t s' a hrun).2
   · cases h
 
+/-! ### the interpolated steps of `_zoom` (now recomputed by the checker from the recorded values, see `alphaJOk`) -/
+
+/-- `_quadmin`: the returned step is the stationary point of the quadratic with value `fa`, slope `fpa` at `a` that
+    passes through `(b, fb)` -/
+theorem quadmin_stationary (a fa fpa b fb q : K) (h : quadmin a fa fpa b fb = some q) :
+    ∃ B : K, quadPoly a fa fpa B a = fa ∧ quadPoly a fa fpa B b = fb ∧ fpa + (B + B) * (q - a) = 0 :=
+  quadmin_spec a fa fpa b fb q h
+
+/-- `_cubicmin`: the coefficients `A, B` give the cubic (value `fa`, slope `fpa` at `a`) through `(b, fb)`, `(c, fc)` -/
+theorem cubicmin_interpolates (a fa fpa b fb cc fc A B : K) (h : cubicAB a fa fpa b fb cc fc = some (A, B)) :
+    cubicPoly fa fpa B A (b - a) = fb ∧ cubicPoly fa fpa B A (cc - a) = fc :=
+  cubicAB_interpolates a fa fpa b fb cc fc A B h
+
+/-- `_cubicmin`: `t` is a stationary point of that cubic iff `(3At + B)² = B² − 3AC`, i.e. iff
+    `t = (−B ± sqrt(B² − 3AC))/(3A)` — the formula of the code; the checker tests `p'(t) ≈ 0` on the `+` branch -/
+theorem cubicmin_stationary (A B C t : K) (hA : A ≠ 0) :
+    (3 * A * t * t + 2 * B * t + C = 0) ↔ (3 * A * t + B) * (3 * A * t + B) = B * B - 3 * A * C :=
+  cubic_stationary_iff A B C t hA
+
 /-- non-vacuity (a test, not a proof): a recorded run with one expansion step, a `_zoom` call and success is accepted.
     φ(α) = (α-3)², φ'(α) = 2(α-3): α = 1 (slope too steep) → α = 2 … here scripted values. -/
 example : acceptsLS (K := Rat)
-    ⟨1, 1/2, 99/100, 101/50, 1/10, 1/5, 10 ^ 100, 1 / 10 ^ 9⟩
+    ⟨1, 1/2, 99/100, 101/50, 1/10, 1/5, 10 ^ 100, 1 / 10 ^ 9, 1 / 2 ^ 42⟩
     ⟨1/10000, 1/10, 1000, none, 100, 100, some 1, none, 1, 9, -6⟩
     [⟨1, .num 4, some (-4)⟩, ⟨2, .num 1, some (-2)⟩, ⟨4, .num 1, none⟩, ⟨3, .num 0, some 0⟩] true 3 = true := by
   decide +kernel
@@ -204,6 +225,15 @@ theorem vl_run_eq_lbfgs_run {ip : V → V → K} (hip : IsIP ip) (gg : V → K) 
     (hgg : ∀ p ∈ pts, gg p.g ≠ 0) (stL : LState V) (h0 : stL.k = 0) (hs : stL.s = s0) (hy : stL.y = y0) :
     runVL ip gg mmax alV s0 y0 e0 pts none = runL ip mmax alL s0 y0 pts stL :=
   runVL_eq_runL hip gg mmax hmm alL alV s0 y0 e0 pts hgg stL none ⟨h0, hs, hy⟩
+
+/-- **the driver instance**: exactly the two expressions `Driver/C16.lean` evaluates for an `lbfgs` request (exact
+    rational vectors `RVec n`, `RVec.dot`, zero-initialised buffers/stores/scratch, `‖g‖²` in the corner) are equal for
+    every dimension, every `max_history_length ≥ 1` and every list of points with non-zero gradients -/
+theorem vl_run_eq_lbfgs_run_driver (n m : Nat) (hm : 0 < m) (pts : List (Point (RVec n)))
+    (hg : ∀ p ∈ pts, RVec.dot p.g p.g ≠ 0) :
+    runVL (K := ℚ) RVec.dot (fun g => RVec.dot g g) m (fun _ => 0) (fun _ => 0) (fun _ => 0) (fun _ _ => 0) pts none =
+      runL (K := ℚ) RVec.dot m (fun _ => 0) (fun _ => 0) (fun _ => 0) pts ⟨0, fun _ => 0, fun _ => 0, 0, 0⟩ :=
+  vl_run_eq_lbfgs_run (isIP_dot n) (fun g => RVec.dot g g) m hm _ _ _ _ _ pts hg _ rfl rfl rfl
 
 /-- non-vacuity: `V = K = ℚ` with `ip = (· * ·)` is a lawful inner product -/
 example : IsIP (K := Rat) (V := Rat) (fun a b => a * b) :=
